@@ -619,6 +619,13 @@ func listPackage(from *listedPackage, path string) (*listedPackage, error) {
 	// The map is flat, so we don't need to recurse.
 	if path2 := from.ImportMap[path]; path2 != "" {
 		path = path2
+	} else if from.Name == "main" && strings.HasSuffix(from.ImportPath, ".test") {
+		// A test binary also links the packages which were recompiled for the test,
+		// like "dep [foo.test]" when dep imports the package under test.
+		// Its ImportMap only covers its direct imports.
+		if variant := path + " [" + from.ImportPath + "]"; from.hasDep(variant) {
+			path = variant
+		}
 	}
 
 	pkg, ok := sharedCache.ListedPackages.get(path)
